@@ -14,6 +14,10 @@ from ..ref import quant as Q
 from ..ref import traversal as T
 
 
+class StreamDefect(Exception):
+    """the stored stream cannot be what the programmed operation consumes (a defect of the compiled output, not of the executor)"""
+
+
 class Unsupported(Exception):
     pass
 
@@ -209,7 +213,8 @@ def read_weights(mem, op, acc, nch, kh, kw, ifm_depth, depthwise, part_kernel, i
                             ofm_ublock_depth=core_facts["ofm_ublock"][2], is_depthwise=depthwise, is_partkernel=part_kernel, ifm_bits=ifm_bits,
                             decomp_h=8 // dil[1], decomp_w=8 // dil[0])
         if not ok:
-            raise Unsupported("weight stream does not match the traversal (non-zero padding or short stream)")
+            raise StreamDefect("the weight stream programmed for this operation (%d bytes at %#x, region %s) does not decode to a weight volume of %d channels x %dx%dx%d with block depth %d "
+                               "(short stream or non-zero padding)" % (ln, base, region, len(chans), kh, kw, 1 if depthwise else ifm_depth, cbd))
         W[chans] = w
     return W
 
